@@ -12,7 +12,9 @@ lock that is held.  Sleeps are zeroed, no wall-clock time enters a schedule."""
 from __future__ import annotations
 
 import inspect
+import os
 import re
+import tempfile
 import sys
 import threading
 from typing import Any, Callable, Dict, List, Optional, Tuple
@@ -282,9 +284,26 @@ def make_body(sched: Sched, tid: int, ep: Dict[str, Any]):
                         cls = AnswerSocket
                     if not sched.use_global:
                         ts_socket.ThreadSocket._SOCKET_HUB = sched.hub
-                    sock = cls(ep["name"], ep["remote"], socket_id=ep["id"], use_callbacks=bool(ep["cb"]))
+                    kw_ = {}
+                    if ep.get("comm_log"):
+                        # the package's communication log switched on for this socket (documented to be a pure observer)
+                        from netqasm.sdk.config import LogConfig
+                        d_ = os.path.join(os.environ.get("VERIF_COMMLOG_DIR") or tempfile.gettempdir(), f"commlog_{os.getpid()}")
+                        os.makedirs(d_, exist_ok=True)
+                        kw_["log_config"] = LogConfig(comm_log_dir=d_)
+                    sock = cls(ep["name"], ep["remote"], socket_id=ep["id"], use_callbacks=bool(ep["cb"]), **kw_)
                     if not sched.use_global:
                         sock._SOCKET_HUB = sched.hub
+                elif op == "connectp":
+                    # the endpoint opens a NEW plain (polling) socket with the same key (after it closed its first one)
+                    if not sched.use_global:
+                        ts_socket.ThreadSocket._SOCKET_HUB = sched.hub
+                    w.old_socks = getattr(w, "old_socks", []) + [sock]
+                    sock = ts_socket.ThreadSocket(ep["name"], ep["remote"], socket_id=ep["id"], use_callbacks=False)
+                    if not sched.use_global:
+                        sock._SOCKET_HUB = sched.hub
+                elif op == "cbflag":
+                    sock.use_callbacks = (arg == "on")        # on a connected socket this is only a flag
                 elif op == "bconnect":
                     # a broadcast channel: one socket per listed remote behind a single receive
                     from netqasm.sdk.classical_communication.thread_socket.broadcast_channel import ThreadBroadcastChannel
